@@ -49,6 +49,9 @@ pub fn export_to_msl(module: &rssl_ir::Module) -> Result<ExportedSource, ExportE
         Err(err) => return Err(ExportError::GenerateError(err)),
     };
 
+    #[cfg(feature = "verif-hooks")]
+    verif::record(&generate_output.ast_module);
+
     // Output MSL source by formatting the RSSL ast
     let target = rssl_formatter::Target::Msl;
     let source = match rssl_formatter::format(&generate_output.ast_module, target) {
@@ -88,5 +91,27 @@ impl rssl_text::CompileError for ExportError {
                 Severity::Error,
             ),
         }
+    }
+}
+
+/// Verification hooks (only compiled with the `verif-hooks` feature)
+///
+/// Records every syntax tree handed to the formatter so external monitors can inspect it
+#[cfg(feature = "verif-hooks")]
+pub mod verif {
+    use std::cell::RefCell;
+
+    thread_local! {
+        static GENERATED: RefCell<Vec<rssl_ast::Module>> = const { RefCell::new(Vec::new()) };
+    }
+
+    /// Record a generated syntax tree
+    pub(crate) fn record(module: &rssl_ast::Module) {
+        GENERATED.with(|g| g.borrow_mut().push(module.clone()));
+    }
+
+    /// Take all syntax trees generated on this thread since the last call
+    pub fn take_generated() -> Vec<rssl_ast::Module> {
+        GENERATED.with(|g| std::mem::take(&mut *g.borrow_mut()))
     }
 }
